@@ -15,8 +15,9 @@ import (
 // The case is a set of Fastly resources (plain data). The check feeds it
 // (i) through a fake snippet.Fetcher into snippet.Fetch + Snippets.EmbedSnippets,
 // (ii) as a Terraform plan JSON through terraform.ParseStdin + NewTerraformFetcher
-// into the same entry points, and (iii, thorough tier, sampled) through the
-// `falco terraform` CLI. The oracle parses every generated item with falco's
+// into the same entry points, (iii, a third of the cases) as Fastly API JSON
+// documents served by a fake http.RoundTripper to remote.NewFastlyApiFetcher
+// (c20_api.go), and (iv, thorough tier, sampled) through the `falco terraform` CLI. The oracle parses every generated item with falco's
 // parser and compares the declarations with the resource data (c20_check.go).
 
 type C20Item struct {
@@ -27,6 +28,9 @@ type C20Item struct {
 type C20Dict struct {
 	Name  string    `json:"name"`
 	Items []C20Item `json:"items,omitempty"`
+	// Fastly API path only: a private dictionary. Its items cannot be listed, so
+	// the table generated from the API is empty; the other paths ignore the flag.
+	WriteOnly bool `json:"write_only,omitempty"`
 }
 
 type C20Entry struct {
@@ -106,6 +110,9 @@ type C20Layout struct {
 	TLS        bool `json:"tls,omitempty"`         // EmbedSnippets(enableTLS)
 	ForceSSL   int  `json:"force_ssl,omitempty"`   // 0 no request setting, 1 force_ssl=false, 2 force_ssl=true
 	CLI        bool `json:"cli,omitempty"`         // thorough tier: also run `falco terraform`
+	API        bool `json:"api,omitempty"`         // also read the case through remote.NewFastlyApiFetcher over a fake api.fastly.com
+	Version    int  `json:"version,omitempty"`     // API path: number of the active service version (0 = 1)
+	Cache      bool `json:"cache,omitempty"`       // API path: also WriteCache + LookupCache by a second fetcher (XDG_CACHE_HOME in a temp dir)
 }
 
 type C20Case struct {
@@ -123,7 +130,7 @@ type C20Case struct {
 
 func init() {
 	register("C20",
-		"resource sets drawn by rapid: edge dictionaries (keys/values = printable text weighted toward \" % { } \\ newline %20 %u0041 \"} empty long unicode), ACLs (IPv4/IPv6, subnet absent/0/n, negated, comments with the same hostile text), backends and directors (names with - space . that falco sanitises, address/shield present/absent, membership), conditions, header rules (5 actions x 3 phases, ignore_if_set, condition), response objects, VCL snippets (typed, none, dynamic), request setting; fed through a fake snippet.Fetcher and as Terraform plan JSON (v1/vcl type, child modules, decoy service, foreign provider) into snippet.Fetch + EmbedSnippets. oracle: every item parses (ParseVCL / ParseSnippetVCL); tables have exactly the input (key, decoded value) pairs, ACLs exactly the input address/mask/negation in order, backends/directors the sanitised name, host and members; nothing extra or missing. non-trivial: >=1 value with a character special in VCL strings (\" % { } \\ newline), or a name needing sanitising, or an IPv6/negated ACL entry; distinct by case",
+		"resource sets drawn by rapid: edge dictionaries (keys/values = printable text weighted toward \" % { } \\ newline %20 %u0041 \"} empty long unicode), ACLs (IPv4/IPv6, subnet absent/0/n, negated, comments with the same hostile text), backends and directors (names with - space . that falco sanitises, address/shield present/absent, membership), conditions, header rules (5 actions x 3 phases, ignore_if_set, condition), response objects, VCL snippets (typed, none, dynamic), request setting; fed through a fake snippet.Fetcher, as Terraform plan JSON (v1/vcl type, child modules, decoy service, foreign provider) and, in a third of the cases, as Fastly API JSON (fake RoundTripper under remote.NewFastlyApiFetcher: version, dictionary+items, write-only dictionary, acl+entries with subnet null/absent/0/n and negated 0/1 strings, backend, director, snippet incl. dynamic content, condition, header, response_object, request_settings, logging; optionally the WriteCache/LookupCache round trip) into snippet.Fetch + EmbedSnippets. oracle: every item parses (ParseVCL / ParseSnippetVCL); tables have exactly the input (key, decoded value) pairs, ACLs exactly the input address/mask/negation in order, backends/directors the sanitised name, host and members; nothing extra or missing. non-trivial: >=1 value with a character special in VCL strings (\" % { } \\ newline), or a name needing sanitising, or an IPv6/negated ACL entry; distinct by case",
 		genC20, checkC20, 20*time.Second)
 }
 
@@ -352,6 +359,7 @@ func genC20(t *rapid.T) any {
 			k := c20Uniq(usedKeys, c20Text(t, "dict-key", ko), ident)
 			d.Items = append(d.Items, C20Item{K: k, V: c20Text(t, "dict-value", o)})
 		}
+		d.WriteOnly = rapid.IntRange(0, 5).Draw(t, "dict-write-only") == 5
 		c.Dicts = append(c.Dicts, d)
 	}
 
@@ -543,6 +551,12 @@ func genC20(t *rapid.T) any {
 	l.SetName = l.Decoy || rapid.Bool().Draw(t, "layout-set-name")
 	l.ForceSSL = rapid.SampledFrom([]int{0, 0, 1, 2}).Draw(t, "layout-force-ssl")
 	l.TLS = rapid.IntRange(0, 2).Draw(t, "layout-tls") == 2
+	// a third of the cases also go through falco's Fastly API client
+	l.API = rapid.IntRange(0, 2).Draw(t, "layout-api") == 2
+	if l.API {
+		l.Version = rapid.SampledFrom([]int{1, 2, 17, 243}).Draw(t, "layout-version")
+		l.Cache = rapid.IntRange(0, 3).Draw(t, "layout-cache") == 3
+	}
 	if Thorough {
 		every := 2000
 		if n, err := strconv.Atoi(os.Getenv("VERIF_C20_CLI_EVERY")); err == nil && n > 0 {
